@@ -19,11 +19,13 @@ let () =
       | "F" :: t -> G_exp.cmd_file t
       | "B" :: t -> G_blk.cmd_blk t
       | "W" :: t -> G_w.cmd_w t
+      | "XW" :: t -> G_w.cmd_xw t
       | ["TRACE"] -> G_w.trace ()
       | "MERGE" :: t -> G_tools.cmd_merge t
       | "ICOUNT" :: t -> G_tools.cmd_icount t
       | "CRASHAT" :: _ -> out "ok"
       | "FAILONCE" :: _ -> out "ok"
+      | "SHORTONCE" :: _ -> out "ok"
       | "PRE" :: _ -> out "ok"
       | c :: t -> if not (More.cmd_more c t) then out ("? unknown command " ^ c)
     end
